@@ -177,3 +177,17 @@ Theorem C03_longer_lengths_stay_feasible : forall p n lags leads l,
   forall t, In t l -> (0 <= t < Z.of_nat n /\ forall k, In k (offsets (mentions p)) -> 0 <= t + k < Z.of_nat n)%Z.
 Proof. exact longer_lengths_stay_feasible. Qed.
 Print Assumptions C03_longer_lengths_stay_feasible.
+
+(* what the options must not change: the four lists and NAMES do not depend on lags / leads / min_lags / min_leads … *)
+Theorem C03_lists_independent_of_options : forall p syms o1 o2 c1 c2, wf_program p = true -> fn_guard p = true ->
+  program_symbols p = Ret syms -> class_of syms o1 = Ret c1 -> class_of syms o2 = Ret c2 ->
+  c_endogenous c1 = c_endogenous c2 /\ c_exogenous c1 = c_exogenous c2 /\ c_parameters c1 = c_parameters c2 /\
+  c_errors c1 = c_errors c2 /\ c_names c1 = c_names c2.
+Proof. exact lists_independent_of_options. Qed.
+Print Assumptions C03_lists_independent_of_options.
+(* … and the lags options do not touch LEADS *)
+Theorem C03_lags_options_do_not_touch_leads : forall p syms o c lg mlg, wf_program p = true -> fn_guard p = true ->
+  program_symbols p = Ret syms -> class_of syms o = Ret c ->
+  forall c', class_of syms (mkOpts lg (o_leads o) mlg (o_min_leads o)) = Ret c' -> c_leads c' = c_leads c.
+Proof. exact lags_options_do_not_touch_leads. Qed.
+Print Assumptions C03_lags_options_do_not_touch_leads.
